@@ -17,6 +17,7 @@
 //               TFI  a=newxta            parse_XTA(FILE*, Document*, newxta)   (flex reads the file through its own buffer)
 //               XFI  a=newxta            parse_XML_file(path, Document*, newxta)
 //               QFI  a=0                 parseProperty(FILE*, builder) after building the fixed small system
+//               QXD  a=n                 model A \x01 model B \x01 query: parse A, parse B n times into other documents, query against A
 // The canonical result: return value, exception class, diagnostics (message, path, line:column of both ends), the
 // canonical document dump, the supported-methods verdict.  Absolute positions never appear.
 #include "common.hpp"
@@ -143,6 +144,26 @@ static std::string runCall(const std::string& kind, int a, int b, const std::str
             rc = parse_XTA(QRY_SYSTEM, &doc, true) ? 1 : 0;
             vh::ExprGrabber g(doc);
             long r2 = parseProperty(input.c_str(), &g, "/qry");
+            rc = rc * 10 + r2;
+            haveQuery = true;
+            query = g.got ? vh::sexp(g.result) : std::string("(none)");
+        } else if (kind == "QXD") {
+            // input = model A \x01 model B \x01 query: parse A, then B `a` times into other documents, then the query against A's document.
+            // The result of the query call must not depend on what was parsed since A was built.
+            auto p1 = input.find('\x01');
+            auto p2 = input.find('\x01', p1 == std::string::npos ? 0 : p1 + 1);
+            if (p1 == std::string::npos || p2 == std::string::npos) return "{\"bad-input\":true}";
+            std::string A = input.substr(0, p1), B = input.substr(p1 + 1, p2 - p1 - 1), Q = input.substr(p2 + 1);
+            rc = parse_XML_buffer(A.c_str(), &doc, true);
+            for (int i = 0; i < a; ++i) {
+                Document other;
+                try {
+                    parse_XML_buffer(B.c_str(), &other, true);
+                } catch (std::exception&) {
+                }
+            }
+            vh::ExprGrabber g(doc);
+            long r2 = parseProperty(Q.c_str(), &g, "/qry");
             rc = rc * 10 + r2;
             haveQuery = true;
             query = g.got ? vh::sexp(g.result) : std::string("(none)");
